@@ -9,7 +9,7 @@ def jobs_for(ck, exe, evict):
     jobs = []
     depth = (5 if thorough else 4)
     parts = 16 if thorough else 8
-    nops = int((400000 if thorough else 12000) * ck.scale)
+    nops = int((1600000 if thorough else 12000) * ck.scale)
     if not evict:
         for p in range(parts):
             jobs.append(dict(exe=exe, args=["--mode", "exhaust", "--depth", depth, "--limit", 0, "--parts", parts, "--part", p], label="ex-thread-%d" % p, env=LEAK_ON, timeout=7200))
